@@ -56,6 +56,10 @@ type srvState struct {
 	sent      []int          // requests read per thread
 	answered  []int          // replies sent per thread
 	fidOwner  map[uint32]int // fid -> client thread that walked to it
+	// strictFids: every request must name a fid the server has bound (used by
+	// the finalizer histories, where nothing is in flight when a fid is released)
+	strictFids bool
+	failWalks  map[string]bool // walk names answered with ENOENT
 }
 
 // threadOf identifies the client goroutine a request belongs to (the
@@ -158,6 +162,15 @@ func (s *srvState) onRequest(m refcodec.Msg) {
 		}
 		s.binding[nf] = true
 	}
+	switch m.Type {
+	case refcodec.Tclunk, refcodec.Tremove, refcodec.Tgetattr, refcodec.Twalk, refcodec.Txattrwalk:
+		if !s.strictFids || s.faulted {
+			break
+		}
+		if f := uint32(m.U("fid")); !s.bound[f] {
+			s.fail("client sent %s through fid %d, which the server does not have bound (never bound, or already clunked)", m.Name(), f)
+		}
+	}
 	if t := s.threadOf(m); t >= 0 && t < len(s.sent) {
 		s.sent[t]++
 	}
@@ -183,6 +196,11 @@ func (s *srvState) reply(i int) {
 		r = refcodec.New(refcodec.Rgetattr, m.Tag, vals...)
 	case refcodec.Twalk:
 		names := m.Get("wnames").([]string)
+		if len(names) == 1 && s.failWalks[names[0]] {
+			r = refcodec.New(refcodec.Rlerror, m.Tag, uint32(2))
+			delete(s.binding, uint32(m.U("newfid")))
+			break
+		}
 		qs := []refcodec.QID{}
 		for range names {
 			qs = append(qs, refcodec.QID{Path: token(m)})
@@ -530,8 +548,8 @@ func generalize(s string) string {
 }
 
 func run(ctx *fw.Ctx, rep *fw.Report) {
-	rep.Rule = "(i) 2-3 goroutines x 1-2 calls (GetAttr, Walk, Close, Remove, GetXattr of an empty value, and UnlinkAt answered with a request-unique errno) on one real p9.Client against a scripted server whose actions (read the next request / answer any pending request) are a free data choice, i.e. every reply order incl. answering before the next request is read; all thread interleavings with at most 1 (quick) / 2 (thorough) preemptions, without reduction (the client's hand-off logic alone has more than 10^5 Mazurkiewicz traces for two calls, so unbounded DPOR does not terminate in budget); (ii) the same sessions with one fault (close, half frame then close, garbage frame, unknown tag, wrong reply type, size field 3) in place of the k-th reply for every k; (iv) two-call sessions broken by a close / half frame / garbage frame, followed by two calls of a SECOND client of the same process on its own healthy connection, with recycling pools (handing out the most recently / the least recently put object: both policies): the second client's calls must succeed; (iii) allocator: explicit-state BFS over all Get/Put sequences of the tag/fid allocator and 2-thread schedules; oracle at the server: outstanding tags pairwise distinct and never NOTAG, a new fid is never one the server has bound or is binding (fault-free sessions), at the callers: own token returned, errors only after a fault, no caller blocked at the end (deadlock detection); distinct = distinct (results, reply order) outcomes"
-	rep.Assumptions = append(rep.Assumptions, "independence classes of DESIGN §2.2", "fid freshness is asserted in sessions without protocol faults only (DESIGN §4.0)", "GC finalizers of client files are off (DESIGN §6)")
+	rep.Rule = "(i) 2-3 goroutines x 1-2 calls (GetAttr, Walk, Close, Remove, GetXattr of an empty value, and UnlinkAt answered with a request-unique errno) on one real p9.Client against a scripted server whose actions (read the next request / answer any pending request) are a free data choice, i.e. every reply order incl. answering before the next request is read; all thread interleavings with at most 1 (quick) / 2 (thorough) preemptions, without reduction (the client's hand-off logic alone has more than 10^5 Mazurkiewicz traces for two calls, so unbounded DPOR does not terminate in budget); (ii) the same sessions with one fault (close, half frame then close, garbage frame, unknown tag, wrong reply type, size field 3) in place of the k-th reply for every k; (iv) two-call sessions broken by a close / half frame / garbage frame, followed by two calls of a SECOND client of the same process on its own healthy connection, with recycling pools (handing out the most recently / the least recently put object: both policies): the second client's calls must succeed; (v) histories with garbage collections as EVENTS: one goroutine, lock-step, all sequences up to 4 (quick) / 5 (thorough) events over {walk, walk answered ENOENT, close k, drop k (forget the File unclosed), gc, use k} with a gc in them; finalizers of client Files run exactly at the gc events (real collections decide what is unreachable); server-side oracle as above plus 'no request names a fid the server does not have bound', client side: Files neither closed nor dropped keep working; (iii) allocator: explicit-state BFS over all Get/Put sequences of the tag/fid allocator and 2-thread schedules; oracle at the server: outstanding tags pairwise distinct and never NOTAG, a new fid is never one the server has bound or is binding (fault-free sessions), at the callers: own token returned, errors only after a fault, no caller blocked at the end (deadlock detection); distinct = distinct (results, reply order) outcomes"
+	rep.Assumptions = append(rep.Assumptions, "independence classes of DESIGN §2.2", "fid freshness is asserted in sessions without protocol faults only (DESIGN §4.0)", "GC finalizers of client files run only at the gc events of part (v); elsewhere they are off (DESIGN §6)")
 	shapes := [][][]string{
 		{{"getattr"}, {"getattr"}},
 		{{"walk"}, {"getattr"}},
@@ -598,6 +616,7 @@ func run(ctx *fw.Ctx, rep *fw.Report) {
 		fw.RunScenario(ctx, rep, sc, fw.SchedOpts{Budget: budget, ForcePB: -1, SkipDPOR: true, Wide: wide, Fallback: bounds, Deviations: dev})
 	}
 	rep.Info["preemption_bound_goal"] = map[bool]int{true: 1, false: 2}[ctx.Quick()]
+	runFinalizers(ctx, rep)
 	if ctx.Shard == 0 {
 		runAllocator(ctx, rep)
 	}
